@@ -497,11 +497,17 @@ class FuncVerifier(object):
         if not z3.is_false(cs):
             s1 = st.copy() if not z3.is_true(cs) else st
             s1.pc.append(cond)
-            outs.extend(self.exec_block(n.body, s1))
+            for (s_, ctl) in self.exec_block(n.body, s1):
+                if ctl is None and k is not None and ('if%d.then.end' % k) in self.c.hints:
+                    self.apply_hints(s_, self.c.hints['if%d.then.end' % k], 'if%d.then.end' % k)
+                outs.append((s_, ctl))
         if not z3.is_true(cs):
             s2 = st
             s2.pc.append(z3.Not(cond))
-            outs.extend(self.exec_block(n.orelse, s2))
+            for (s_, ctl) in self.exec_block(n.orelse, s2):
+                if ctl is None and k is not None and ('if%d.else.end' % k) in self.c.hints:
+                    self.apply_hints(s_, self.c.hints['if%d.else.end' % k], 'if%d.else.end' % k)
+                outs.append((s_, ctl))
         return outs
 
     def truth(self, v, st, node):
